@@ -336,6 +336,9 @@ fn check_single(ctx: &mut Ctx, qs: &[MQ], c: &Canon, h: &str) {
 }
 
 impl Check for C05 {
+    fn stall_secs(_tier: Tier) -> Option<u64> {
+        Some(900)
+    }
     type Case = Case;
     const ID: &'static str = "C05";
     fn rule() -> String {
